@@ -629,7 +629,7 @@ Proof.
       split; [reflexivity|]. split; [reflexivity|]. split; lra.
     + apply Qle_bool_false in E.
       destruct (IH (acc + w) v E ltac:(lra)) as (l1 & v' & wv & l2 & El & Hp & H1 & H2).
-      exists ((v, w) :: l1), v', wv, l2. rewrite El. cbn [app map snd qsum fold_right].
+      subst l. exists ((v, w) :: l1), v', wv, l2. cbn [app map snd qsum fold_right].
       fold (qsum (map snd l1)). split; [reflexivity|]. split; [exact Hp|]. split; lra.
 Qed.
 
